@@ -87,8 +87,10 @@ int BackendApp::Run(char **argv) {
     // For mp::Error, which can be thrown by Abort() or MP_RAISE,
     // we try to print the result into .sol file,
     // if the solution handler is available.
+    // Only codes outside the 'solved' class (0..99) can describe an error:
+    // ReadError, UnsupportedError etc. carry EXIT_FAILURE (1).
     GetBackend().ReportError(
-          er.exit_code()>=0 ? er.exit_code() : sol::FAILURE,
+          er.exit_code()>=sol::UNCERTAIN ? er.exit_code() : sol::FAILURE,
           std::string(GetBackend().long_name()) + ":  "
           + er.what());
   } catch (const std::exception& ex) {
